@@ -394,3 +394,70 @@ Proof.
   - apply forallb_forall. intros en Hin. destruct (at_or_under (l_path x ++ D_RemovedLayerSuffix) (fst en)) eqn:Hu; [|reflexivity].
     rewrite (H3 en Hin Hu). cbn [opt_beq]. apply node_beq_refl.
 Qed.
+
+(* ------------------------------------------------------------------ disjointness from the configuration *)
+(* two directories that both contain q are nested *)
+Definition tail_ok (rest : bytes) : Prop := rest = [] \/ exists r, rest = sl :: r.
+Lemma at_or_under_ext a q : beq a root = false -> at_or_under a q = true -> exists rest, q = a ++ rest /\ tail_ok rest.
+Proof.
+  intros Hr H. destruct (at_or_under_cases a q H) as [[-> _]|(a' & r & -> & _ & [->|[-> _]])].
+  - exists []. rewrite app_nil_r. split; [reflexivity|now left].
+  - exists (sl :: r). split; [reflexivity|right; now exists r].
+  - rewrite beq_refl in Hr. discriminate.
+Qed.
+Lemma at_or_under_intro a rest : beq a root = false -> tail_ok rest -> at_or_under a (a ++ rest) = true.
+Proof.
+  intros Hr [->|[r ->]]; [rewrite app_nil_r; apply at_or_under_refl|].
+  unfold at_or_under, under. rewrite Hr. apply orb_true_iff. right. apply prefixb_spec. exists r. now rewrite <- app_assoc.
+Qed.
+Lemma tail_ok_prefix l t ta : ta = l ++ t -> tail_ok ta -> tail_ok l.
+Proof.
+  intros E [->|[r ->]].
+  - destruct l; [now left|discriminate].
+  - destruct l as [|ch l']; [now left|]. injection E as <- _. right. now exists l'.
+Qed.
+Lemma nested a b q : beq a root = false -> beq b root = false ->
+  at_or_under a q = true -> at_or_under b q = true -> at_or_under a b = true \/ at_or_under b a = true.
+Proof.
+  intros Ha Hb Ua Ub. destruct (at_or_under_ext a q Ha Ua) as (ta & -> & Hta).
+  destruct (at_or_under_ext b _ Hb Ub) as (tb & E & Htb).
+  apply app_eq_app in E as (l & [[-> E]|[-> E]]).
+  - right. apply at_or_under_intro; [exact Hb|]. now apply (tail_ok_prefix l ta tb).
+  - left. apply at_or_under_intro; [exact Ha|]. now apply (tail_ok_prefix l tb ta).
+Qed.
+
+(* the export links of layer n are neither inside nor above its directory or <dir>~removed *)
+Definition cfg_apart (c : cfgT) (n : bytes) : bool :=
+  let dd := layer_path c n in let rr := dd ++ D_RemovedLayerSuffix in
+  forallb (fun lk => negb (beq lk root) && negb (at_or_under lk dd) && negb (at_or_under dd lk)
+                     && negb (at_or_under lk rr) && negb (at_or_under rr lk))
+          [pathjoin [c_exports c; c_exp_binpkg c; n]; pathjoin [c_exports c; c_exp_gen c; n]].
+
+Lemma links_apart_of_config c f x : legal_name (l_name x) = true -> l_name x <> [] ->
+  l_path x = layer_path c (l_name x) -> cfg_apart c (l_name x) = true -> links_apart c f x = true.
+Proof.
+  intros Hl Hne Hp Hc. unfold links_apart. apply forallb_forall. intros lt Hlt. apply forallb_forall. intros en Hen.
+  apply negb_true_iff. destruct (at_or_under (fst lt) (fst en)) eqn:U1; [|reflexivity]. cbn [andb].
+  unfold cfg_apart in Hc. rewrite forallb_forall in Hc.
+  assert (Hin : In (fst lt) [pathjoin [c_exports c; c_exp_binpkg c; l_name x]; pathjoin [c_exports c; c_exp_gen c; l_name x]]).
+  { unfold automated_exports in Hlt. destruct Hlt as [<-|[<-|[]]]; cbn [fst]; auto using in_eq, in_cons. }
+  specialize (Hc _ Hin). cbv zeta in Hc. rewrite <- Hp in Hc.
+  repeat (apply andb_true_iff in Hc as [Hc ?]).
+  repeat match goal with H : negb _ = true |- _ => apply negb_true_iff in H end.
+  assert (Hd : beq (l_path x) root = false) by (rewrite Hp; now apply layer_path_not_root).
+  assert (Hr : beq (removed_of x) root = false).
+  { apply beq_false. intros E. apply (f_equal (@length _)) in E. unfold removed_of in E. rewrite app_length in E. cbn in E. lia. }
+  unfold region. apply orb_false_iff. split.
+  - destruct (at_or_under (l_path x) (fst en)) eqn:U2; [|reflexivity]. exfalso.
+    destruct (nested _ _ _ Hc Hd U1 U2); congruence.
+  - destruct (at_or_under (removed_of x) (fst en)) eqn:U2; [|reflexivity]. exfalso. fold (removed_of x) in *.
+    destruct (nested _ _ _ Hc Hr U1 U2); congruence.
+Qed.
+
+(* the same theorem with the disjointness stated on the configuration *)
+Definition wf_remove_cfg (c : cfgT) (f : fsT) (n : bytes) : bool :=
+  nodup_paths (map fst f)
+  && match layer_named c f n with
+     | None => true
+     | Some x => cfg_apart c n && removed_closed f x && dirs_agree c x
+     end.
